@@ -170,6 +170,8 @@ def body(ctx):
         runs.append((mode, spec, ['random'], run_caps(mode, spec, [], rng=random.Random(ctx.seed + k))))
     judge(ctx, runs, 'in-memory short writes', f1)
     ctx.sample(dict(kind='short-writes', capacities=list(seqs[7]), mode='async'))
+    if ctx.violations:
+        return
     # 2b. one buffer that needs more than 65536 write calls (a WRITE larger than 64 KiB accepted one byte at a time)
     runs = []
     for mode in ('sync', 'async'):
@@ -191,7 +193,8 @@ def body(ctx):
             base = scen.run(dict(spec0, connect_kw=dict(read_timeout_s=1.0)), mode, wcap=lambda n, c=cap: min(n, c))
             calls = base.sess.core.calls
             if any(o.kind == 'exc' for o in base.outcomes):
-                raise tlc.TlcError('short-write baseline raises')
+                ctx.violation('C15.PeerGetsAll', dict(kind='short-writes', label='%d bytes per call, no fault' % cap, mode=mode, outcomes=[(o.kind, o.exc_name) for o in base.outcomes]))
+                continue
             ks = [k for k, c in enumerate(calls) if c[0] == 'bulk_write']
             if ctx.quick:
                 ks = ks[::2] if cap == 7 else ks
